@@ -23,6 +23,7 @@ func init() {
 			"R4 the unsigned subtraction MessageLength − HeaderLength is reached only after a guard rejecting MessageLength < HeaderLength whose failing edge returns an error before any further read (followed through the caller); " +
 			"R5 when the header read fails, ReadMessage returns the read combinator's error itself (or a %w wrapping), so io.EOF between messages stays recognisable, and a failed body read returns a non-nil error; " +
 			"R6 read-path functions store to no package-level variable (no cursor carried between messages). " +
+			"R5 also: in every library function that calls the read path and tests its error, no path leads from the error edge of a message read back to a read of the same connection (after a failed or partial read the stream position is inside a message; reading on would attribute its bytes to another message), and the header decode error and the length-guard error are propagated. " +
 			"With io.ReadFull's contract these imply the statement for every fragmentation; the fragmentation quantifier itself is discharged by that contract, not enumerated. Not decided: bufio.Reader internals, SCTP stream selection (C19).",
 		Rules: map[string]string{
 			"R1": "reader consumed only through full-read combinators with min = len(buffer)",
